@@ -151,27 +151,31 @@ func (x *exec) checkLoopSpecs(blk *Block) {
 	}
 }
 
-// checkFrame: everything outside "modifies" is unchanged at return.
-func (x *exec) checkFrame(blk *Block, r retRec, site string) {
+// frameInfo caches the evaluated modifies targets of the function under verification.
+type frameInfo struct {
+	all     bool
+	targets []frameTarget
+	ok      bool
+}
+
+func (x *exec) frameTargetsAll() *frameInfo {
+	t := x.topExec()
+	if t.frame != nil {
+		return t.frame
+	}
 	e := x.e
-	c := e.C
-	if blk.Has("noframe") {
-		return
+	fi := &frameInfo{}
+	t.frame = fi
+	blk := t.contract
+	if blk == nil || blk.Has("noframe") {
+		fi.all = true
+		return fi
 	}
-	cs, err := e.calleeScope(blk, x.fn, FuncKey(x.fn))
+	cs, err := e.calleeScope(blk, t.fn, FuncKey(t.fn))
 	if err != nil {
-		return
+		fi.all = true
+		return fi
 	}
-	// allowed targets, evaluated in the entry state with entry parameter values
-	type target struct {
-		key        string // exact heap key
-		ref        *Term  // first-level index allowed (nil: whole key)
-		arr        *Term  // element wildcard over struct elements: elemArr(r)=arr && off<=elemIdx(r)<off+len
-		off, ln    *Term
-		row        bool // second-level range [off, off+ln) of row ref
-	}
-	var targets []target
-	all := false
 	for _, cl := range blk.Of("modifies") {
 		for _, item := range splitTop(cl.Text, ',') {
 			item = strings.TrimSpace(item)
@@ -179,91 +183,108 @@ func (x *exec) checkFrame(blk *Block, r retRec, site string) {
 				continue
 			}
 			if item == "*" {
-				all = true
+				fi.all = true
 				continue
 			}
 			if strings.HasPrefix(item, "heap:") {
-				key := strings.TrimPrefix(item, "heap:")
-				for k := range e.heapSorts {
-					if k == key || strings.HasPrefix(k, key+"#") {
-						targets = append(targets, target{key: k})
-					}
-				}
+				fi.targets = append(fi.targets, frameTarget{keyPrefix: strings.TrimPrefix(item, "heap:")})
 				continue
 			}
-			wild := strings.Contains(item, "[_]")
-			sub := &Clause{Kind: "modifies", Text: strings.Replace(item, "[_]", "[wild_()]", -1), File: cl.File, Line: cl.Line, Label: item + "#frame"}
+			wild := strings.Contains(item, "[_]") || strings.Contains(item, "[__]")
+			sub := &Clause{Kind: "modifies", Text: wildText(item), File: cl.File, Line: cl.Line, Label: item + "#frame"}
 			be := e.bindAddr(sub, cs)
 			if be.err != nil {
-				x.bindFail(cl, be.err)
+				t.bindFail(cl, be.err)
 				continue
 			}
-			env := x.calleeEnv(x.entry, x.entry, cs, x.args)
+			env := t.calleeEnv(t.entry, t.entry, cs, t.args)
 			env.info = be.info
-			for _, tg := range x.frameTargets(env, be, wild, cl) {
-				targets = append(targets, target(tg))
-			}
+			fi.targets = append(fi.targets, t.frameTargets(env, be, wild, cl)...)
 		}
 	}
-	if all {
-		return
+	fi.ok = true
+	return fi
+}
+
+// frameGoal returns the formula "heap key changed only at locations the
+// contract's modifies clauses allow (or at objects allocated since entry)",
+// or nil when no obligation is needed for key.
+func (x *exec) frameGoal(key string, st *State) *Term {
+	e := x.e
+	c := e.C
+	t := x.topExec()
+	fi := x.frameTargetsAll()
+	if fi.all || strings.HasPrefix(key, "chan#") {
+		return nil
 	}
-	next0 := x.entry.next
+	so := e.heapSorts[key]
+	h1, ok := st.heap[key]
+	if !ok {
+		return nil
+	}
+	h0 := e.heapGet(t.entry, key, so)
+	if h1 == h0 {
+		return nil
+	}
+	next0 := t.entry.next
+	rv := c.BoundVar("r", so.Idx)
+	var allowed []*Term
+	if so.Idx == Int {
+		allowed = append(allowed, c.Le(next0, rv)) // objects allocated by this call
+		if isFieldKey(key) {
+			// fields of elements of freshly allocated arrays and of their sub-objects
+			e.ensureElemAxioms()
+			allowed = append(allowed, c.And(c.Le(next0, c.App("elemArr", Int, rv)), c.Eq(c.App("elem", Int, c.App("elemArr", Int, rv), c.App("elemIdx", Int, rv)), rv)))
+		}
+	}
+	var rowT []frameTarget
+	for _, tg := range fi.targets {
+		if tg.keyPrefix != "" {
+			if key == tg.keyPrefix || strings.HasPrefix(key, tg.keyPrefix+"#") {
+				return nil
+			}
+			continue
+		}
+		if tg.key != key {
+			continue
+		}
+		switch {
+		case tg.row:
+			rowT = append(rowT, tg)
+		case tg.arr != nil:
+			idx := c.App("elemIdx", Int, rv)
+			allowed = append(allowed, c.And(c.Eq(c.App("elemArr", Int, rv), tg.arr), c.Eq(c.App("elem", Int, tg.arr, idx), rv), c.Le(tg.off, idx), c.Lt(idx, c.Add(tg.off, tg.ln))))
+		case tg.ref != nil:
+			allowed = append(allowed, c.Eq(rv, tg.ref))
+		default:
+			return nil
+		}
+	}
+	if len(rowT) > 0 && so.Elem.Kind == KArray {
+		kv := c.BoundVar("k", so.Elem.Idx)
+		var rowAllowed []*Term
+		for _, tg := range rowT {
+			rowAllowed = append(rowAllowed, c.And(c.Eq(rv, tg.ref), c.Le(tg.off, kv), c.Lt(kv, c.Add(tg.off, tg.ln))))
+		}
+		sel1 := c.Select(c.Select(h1, rv), kv)
+		same := c.Eq(sel1, c.Select(c.Select(h0, rv), kv))
+		return c.Quant("forall", []*Term{rv, kv}, c.Or(append(append([]*Term{same}, allowed...), rowAllowed...)...), [][]*Term{{sel1}})
+	}
+	sel1 := c.Select(h1, rv)
+	same := c.Eq(sel1, c.Select(h0, rv))
+	return c.Quant("forall", []*Term{rv}, c.Or(append([]*Term{same}, allowed...)...), [][]*Term{{sel1}})
+}
+
+func isFieldKey(key string) bool {
+	return strings.Contains(key, ".") && !strings.HasPrefix(key, "A:") && !strings.HasPrefix(key, "box:") && !strings.HasPrefix(key, "map:") && !strings.HasPrefix(key, "ghost:") && !strings.HasPrefix(key, "global:")
+}
+
+// checkFrame: everything outside "modifies" is unchanged at return.
+func (x *exec) checkFrame(blk *Block, r retRec, site string) {
 	for _, key := range sortedKeys(r.st.heap) {
-		if strings.HasPrefix(key, "chan#") {
-			continue
+		if g := x.frameGoal(key, r.st); g != nil {
+			x.oblige("frame", shortHeapKey(key)+"@"+site, r.pos, r.st, g, "only locations listed in modifies change ("+key+")")
 		}
-		so := e.heapSorts[key]
-		h1 := r.st.heap[key]
-		h0 := e.heapGet(x.entry, key, so)
-		if h1 == h0 {
-			continue
-		}
-		rv := c.BoundVar("r", so.Idx)
-		var allowed []*Term
-		if so.Idx == Int {
-			allowed = append(allowed, c.Le(next0, rv)) // objects allocated by this call
-			if strings.Contains(key, ".") && !strings.HasPrefix(key, "A:") && !strings.HasPrefix(key, "box:") && !strings.HasPrefix(key, "map:") && !strings.HasPrefix(key, "ghost:") && !strings.HasPrefix(key, "global:") {
-				// fields of elements of freshly allocated arrays
-				e.ensureElemAxioms()
-				allowed = append(allowed, c.And(c.Le(next0, c.App("elemArr", Int, rv)), c.Eq(c.App("elem", Int, c.App("elemArr", Int, rv), c.App("elemIdx", Int, rv)), rv)))
-			}
-		}
-		whole := false
-		var rowT []target
-		for _, tg := range targets {
-			if tg.key != key {
-				continue
-			}
-			switch {
-			case tg.row:
-				rowT = append(rowT, tg)
-			case tg.arr != nil:
-				idx := c.App("elemIdx", Int, rv)
-				allowed = append(allowed, c.And(c.Eq(c.App("elemArr", Int, rv), tg.arr), c.Eq(c.App("elem", Int, tg.arr, idx), rv), c.Le(tg.off, idx), c.Lt(idx, c.Add(tg.off, tg.ln))))
-			case tg.ref != nil:
-				allowed = append(allowed, c.Eq(rv, tg.ref))
-			default:
-				whole = true
-			}
-		}
-		if whole {
-			continue
-		}
-		var goal *Term
-		if len(rowT) > 0 && so.Elem.Kind == KArray {
-			kv := c.BoundVar("k", so.Elem.Idx)
-			var rowAllowed []*Term
-			for _, tg := range rowT {
-				rowAllowed = append(rowAllowed, c.And(c.Eq(rv, tg.ref), c.Le(tg.off, kv), c.Lt(kv, c.Add(tg.off, tg.ln))))
-			}
-			same := c.Eq(c.Select(c.Select(h1, rv), kv), c.Select(c.Select(h0, rv), kv))
-			goal = c.Quant("forall", []*Term{rv, kv}, c.Or(append(append([]*Term{same}, allowed...), rowAllowed...)...), nil)
-		} else {
-			same := c.Eq(c.Select(h1, rv), c.Select(h0, rv))
-			goal = c.Quant("forall", []*Term{rv}, c.Or(append([]*Term{same}, allowed...)...), nil)
-		}
-		x.oblige("frame", shortHeapKey(key)+"@"+site, r.pos, r.st, goal, "only locations listed in modifies change ("+key+")")
 	}
 }
 
@@ -273,6 +294,7 @@ func shortHeapKey(k string) string {
 }
 
 type frameTarget struct {
+	keyPrefix string
 	key     string
 	ref     *Term
 	arr     *Term
